@@ -49,3 +49,6 @@ SPEC = {'id': 'C02',
                  'session ids of concurrent polls are pairwise distinct',
                  'no system step of another request disables an enabled step (commutation, argued not proved)'],
  'race': True}
+
+SPEC['rule'] += (' Added after the seeded-change rounds: ' +
+    'Oracle-only scenarios run against the real broker in serial mode (one at a time, no model): the same session id polled again while the first poll is answered / unanswered; two idle polls under one id; a proxy that never answers while a spare poll waits (the offer must not be handed out twice); 300 waiting proxies of one NAT class; the same id re-polled with another NAT type; every spelling of the NAT type; sibling fingerprints of 32 bytes that share their first 20 bytes.')
